@@ -55,7 +55,12 @@ pub use io::*;
 /// 16 is our initial guess for balance.
 ///
 /// This must be at least 2.
+#[cfg(not(aranya_core_verif))]
 const MAX_FACT_INDEX_DEPTH: u64 = 16;
+/// Verification builds (`--cfg aranya_core_verif`) compact fact indices after 3 levels so
+/// that short histories cross the compaction boundary.
+#[cfg(aranya_core_verif)]
+const MAX_FACT_INDEX_DEPTH: u64 = 3;
 
 pub struct LinearStorageProvider<FM: IoManager> {
     manager: FM,
